@@ -114,3 +114,217 @@ def mk_sequence(alphabet='aa', dmax='any', prefix='self', nmin=1):
         o.fields['ComplexityObject'] = Obj(mod.SequenceComplexity, 'cx')
         return o
     return build
+
+
+# ----------------------------------------------------------------------------- C07: sequence charge decoration
+def scd_inner(s, m, upto):
+    """sum over 1 <= n < upto of q_m q_n sqrt(m - n)   (1-based residue numbers)"""
+    return rsum(lambda n: toreal(charge(s[m - 1])) * toreal(charge(s[n - 1])) * sqrt(toreal(m - n)), 1, upto)
+
+
+def scd_outer(s, upto):
+    """sum over 2 <= m < upto of the pairs (m, n<m)"""
+    return rsum(lambda m: scd_inner(s, m, m), 2, upto)
+
+
+def scd_spec(s, N):
+    """(1/N) * sum over pairs m > n of q_m q_n sqrt(m-n)"""
+    return scd_outer(s, N + 1) / toreal(N)
+
+
+# ----------------------------------------------------------------------------- C08: diagram-of-states region
+def region_spec(p, n, N):
+    fcr = toreal(p + n) / toreal(N)
+    ncpr = toreal(p - n) / toreal(N)
+    return ite(fcr < Fraction(1, 4), 1,
+               ite(fcr <= Fraction(7, 20), 2,
+                   ite(absv(ncpr) < Fraction(7, 20), 3,
+                       ite(p > n, 5, 4))))
+
+
+# ----------------------------------------------------------------------------- C09: titration
+from contracts.tables import PKA as _PKA
+
+
+def pka(c):
+    """EMBOSS pKa of a titratable residue (0 for the others; never used for them)"""
+    r = Fraction(0)
+    for k in 'CYHEDKR':
+        r = ite(c == k, _PKA[k], r)
+    return r
+
+
+def hh_term(c, pH, negnum):
+    """Henderson-Hasselbalch contribution of residue c: positive for K,R,H; negnum/(...) for E,D,Y,C"""
+    pos = ite(isin(c, 'KRH'), lambda: 1 / (1 + pow10(pH - pka(c))), Fraction(0))
+    neg = ite(isin(c, 'EDYC'), lambda: negnum / (1 + pow10(pka(c) - pH)), Fraction(0))
+    return pos + neg
+
+
+def hh_sum(s, pH, negnum, lo, hi):
+    return rsum(lambda j: hh_term(s[j], pH, negnum), lo, hi)
+
+
+def n_titratable(s, lo, hi):
+    return cnt(lambda j: isin(s[j], 'KRHEDYC'), lo, hi)
+
+
+def n_pro(s, lo, hi):
+    return cnt(lambda j: s[j] == 'P', lo, hi)
+
+
+SPEC.update(dict(scd_inner=scd_inner, scd_outer=scd_outer, scd_spec=scd_spec, region_spec=region_spec, pka=pka, hh_term=hh_term,
+                 hh_sum=hh_sum, n_titratable=n_titratable, n_pro=n_pro))
+
+
+# ----------------------------------------------------------------------------- C04: per-residue tables (published values, tables.py)
+from contracts import tables as _T
+
+
+def table_fn(tab, default=0):
+    """c -> published value of residue c (ite chain over the 20 letters)"""
+    def f(c):
+        r = Fraction(default)
+        for k in reversed(AA20):
+            r = ite(c == k, tab[k], r)
+        return r
+    return f
+
+
+kd_shifted = table_fn(_T.KD_SHIFTED)
+kd_uversky = table_fn(_T.KD_UVERSKY)
+ww = table_fn(_T.WW)
+mw = table_fn(_T.MW)
+ppii = {m: table_fn(t) for m, t in _T.PPII.items()}
+
+
+def ppii_of(mode):
+    return ppii[mode]
+
+
+def res_sum(f, s, lo, hi):
+    """sum over residues lo <= j < hi of the published per-residue value f"""
+    return rsum(lambda j: f(s[j]), lo, hi)
+
+
+def count_of(chars, s, lo, hi):
+    return cnt(lambda j: isin(s[j], chars), lo, hi)
+
+
+def dict_all(d, f):
+    """f(key, value) for every entry of a dictionary with concrete keys"""
+    acc = True
+    for k in d:
+        acc = And(acc, f(k, d[k]))
+    return acc
+
+
+SPEC.update(dict(T_kd_shifted=kd_shifted, T_kd_uversky=kd_uversky, T_ww=ww, T_mw=mw, T_ppii=ppii_of, res_sum=res_sum, count_of=count_of,
+                 dict_all=dict_all, DISORDER=_T.DISORDER_PROMOTING))
+
+
+# ----------------------------------------------------------------------------- C10: window statistics
+def win_ncpr(s, i, w):
+    return toreal(npos(s, i, i + w) - nneg(s, i, i + w)) / toreal(w)
+
+
+def win_fcr(s, i, w):
+    return toreal(npos(s, i, i + w) + nneg(s, i, i + w)) / toreal(w)
+
+
+def win_sigma(s, i, w):
+    return sigma_of(npos(s, i, i + w), nneg(s, i, i + w), w)
+
+
+def win_hydro(s, i, w):
+    return res_sum(kd_uversky, s, i, i + w) / toreal(w)
+
+
+def win_density(s, grp, i, w):
+    return toreal(cnt(lambda j: isin(s[j], grp), i, i + w)) / toreal(w)
+
+
+def profile_ok(row, N, w, stat):
+    """row has one column per residue; entry i + floor((w-1)/2) is stat(i) for 0 <= i <= N-w, the flanks are 0"""
+    fs = fdiv(w - 1, 2)
+    return And(length(row) == N,
+               forall(lambda j: row[j] == ite(And(j >= fs, j < fs + (N - w + 1)), lambda: stat(j - fs), Fraction(0)), 0, N))
+
+
+def positions_ok(row, N):
+    return And(length(row) == N, forall(lambda j: row[j] == j + 1, 0, N))
+
+
+SPEC.update(dict(win_ncpr=win_ncpr, win_fcr=win_fcr, win_sigma=win_sigma, win_hydro=win_hydro, win_density=win_density,
+                 profile_ok=profile_ok, positions_ok=positions_ok))
+
+
+# ----------------------------------------------------------------------------- groups (C06, C10)
+def upper_char(c):
+    """upper-casing of one character (ASCII exact; trusted beyond ASCII)"""
+    if HAVE_Z3:
+        from pyvc.values import SChar
+        from pyvc.models import upper_code
+        import z3 as _z3
+        if isinstance(c, SChar):
+            return SChar(_z3.simplify(upper_code(c.e)))
+    return c.upper()
+
+
+def in_group(c, grp):
+    """c is (after upper-casing of the group's members) a member of the group given as a list/sequence of letters"""
+    if isinstance(grp, (list, tuple, str, set, frozenset)) and not HAVE_Z3:
+        return c in set(x.upper() for x in grp)
+    if isinstance(grp, (list, tuple, str, set, frozenset)):
+        return Or(*[c == upper_char(x) for x in grp]) if len(grp) else False
+    return exists(lambda k: upper_char(grp[k]) == c, 0, length(grp))
+
+
+def win_group_density(s, grp, i, w):
+    return rsum(lambda j: ite(in_group(s[j], grp), Fraction(1), Fraction(0)), i, i + w) / toreal(w)
+
+
+def win_set_density(s, grpset, i, w):
+    # same summand as win_group_density once the set is { c | in_group(c, grp) }
+    return rsum(lambda j: ite(isin(s[j], grpset), Fraction(1), Fraction(0)), i, i + w) / toreal(w)
+
+
+def group_valid(grp):
+    if isinstance(grp, (list, tuple, str)):
+        return And(*[is_aa(upper_char(x)) for x in grp]) if len(grp) else True
+    return forall(lambda k: is_aa(upper_char(grp[k])), 0, length(grp))
+
+
+def groups_valid(grps):
+    acc = True
+    for g in grps:
+        acc = And(acc, group_valid(g))
+    return acc
+
+
+STD_GROUPS = [['E', 'D'], ['R', 'K'], ['R', 'K', 'E', 'D'], ['Q', 'N', 'S', 'T', 'G', 'H', 'C'], ['A', 'L', 'M', 'I', 'V'], ['F', 'Y', 'W'], ['P']]
+
+
+def rows_ok(rows, groups, N, w, s):
+    """one value row per group, in order, each the density profile of that group"""
+    if len(groups) == 1 and not isinstance(rows, tuple):
+        rows = [rows]
+    acc = len(rows) == len(groups)
+    if not acc:
+        return False
+    for row, g in zip(rows, groups):
+        acc = And(acc, profile_ok(row, N, w, lambda i, g=g: win_group_density(s, g, i, w)))
+    return acc
+
+
+SPEC.update(dict(upper_char=upper_char, in_group=in_group, win_group_density=win_group_density, win_set_density=win_set_density,
+                 group_valid=group_valid, groups_valid=groups_valid, STD_GROUPS=STD_GROUPS, rows_ok=rows_ok))
+
+
+def charge_norm(s, N, pH):
+    """mean charge per titratable residue at pH (0 when nothing titrates)"""
+    t = n_titratable(s, 0, N)
+    return ite(t == 0, Fraction(0), lambda: hh_sum(s, pH, -1, 0, N) / toreal(t))
+
+
+SPEC.update(dict(charge_norm=charge_norm))
